@@ -292,8 +292,6 @@ where
         let mut insert_op = None;
         let mut update_op = None;
 
-        #[cfg(mini_moka_verif)]
-        crate::verif::block_until("ins.shard", &|| self.inner.verif_shard_free(&*key));
         self.inner
             .cache
             .entry(Arc::clone(&key))
@@ -468,7 +466,13 @@ enum AdmissionResult<K> {
     },
 }
 
+#[cfg(not(mini_moka_verif))]
 type CacheStore<K, V, S> = dashmap::DashMap<Arc<K>, TrioArc<ValueEntry<K, V>>, S>;
+
+// Verification hook: the same map behind a wrapper whose write operations are
+// blocking points for the controlled scheduler.
+#[cfg(mini_moka_verif)]
+type CacheStore<K, V, S> = crate::verif::VerifMap<Arc<K>, TrioArc<ValueEntry<K, V>>, S>;
 
 type CacheEntryRef<'a, K, V> = DashMapRef<'a, Arc<K>, TrioArc<ValueEntry<K, V>>>;
 
@@ -526,6 +530,8 @@ where
                 n,
             ),
         };
+        #[cfg(mini_moka_verif)]
+        let cache = crate::verif::VerifMap::new(cache);
 
         Self {
             max_capacity,
@@ -574,22 +580,6 @@ where
         self.cache
             .remove(key)
             .map(|(key, entry)| KvEntry::new(key, entry))
-    }
-}
-
-// Verification hook: true when a write operation on `key`'s shard would not block.
-#[cfg(mini_moka_verif)]
-impl<K, V, S> Inner<K, V, S>
-where
-    K: Hash + Eq,
-    S: BuildHasher + Clone,
-{
-    pub(crate) fn verif_shard_free<Q>(&self, key: &Q) -> bool
-    where
-        Arc<K>: Borrow<Q>,
-        Q: Hash + Eq + ?Sized,
-    {
-        !self.cache.try_get_mut(key).is_locked()
     }
 }
 
@@ -921,8 +911,6 @@ where
         if let Some(max) = self.max_capacity {
             if new_weight as u64 > max {
                 // The candidate is too big to fit in the cache. Reject it.
-                #[cfg(mini_moka_verif)]
-                crate::verif::block_until("up.reject", &|| self.verif_shard_free(&*kh.key));
                 self.cache
                     .remove_if(&kh.key, |_, v| TrioArc::ptr_eq(v, &entry));
                 return;
@@ -943,10 +931,6 @@ where
             } => {
                 // Try to remove the victims from the cache (hash map).
                 for victim in victim_nodes {
-                    #[cfg(mini_moka_verif)]
-                    crate::verif::block_until("up.victim", &|| {
-                        self.verif_shard_free(&**unsafe { victim.as_ref().element.key() })
-                    });
                     if let Some((_vic_key, vic_entry)) =
                         self.cache.remove(unsafe { victim.as_ref().element.key() })
                     {
@@ -968,8 +952,6 @@ where
                 skipped_nodes = s;
                 // Remove the candidate from the cache (hash map), unless a newer
                 // value has replaced it meanwhile.
-                #[cfg(mini_moka_verif)]
-                crate::verif::block_until("up.reject", &|| self.verif_shard_free(&*kh.key));
                 self.cache
                     .remove_if(&kh.key, |_, v| TrioArc::ptr_eq(v, &entry));
             }
@@ -1178,8 +1160,6 @@ where
             }
 
             let key = key.as_ref().unwrap();
-            #[cfg(mini_moka_verif)]
-            crate::verif::block_until("exp_ao.peeked", &|| self.verif_shard_free(&**key));
 
             // Remove the key from the map only when the entry is really
             // expired. This check is needed because it is possible that the entry in
@@ -1252,8 +1232,6 @@ where
             }
 
             let key = key.as_ref().unwrap();
-            #[cfg(mini_moka_verif)]
-            crate::verif::block_until("exp_wo.peeked", &|| self.verif_shard_free(&**key));
 
             let maybe_entry = self
                 .cache
@@ -1321,8 +1299,6 @@ where
                 None => break,
             };
 
-            #[cfg(mini_moka_verif)]
-            crate::verif::block_until("evict.peeked", &|| self.verif_shard_free(&*key));
             let maybe_entry = self.cache.remove_if(&key, |_, v| {
                 if let Some(lm) = v.last_modified() {
                     lm == ts
